@@ -32,12 +32,12 @@ def x_obligations(tier):
         if tier == "thorough" or not heavy:
             o.append(Obl(f"C18-last[{conf},{pre}v09?|v10?{suf}]", M, "last_of", env=dict(env0, VF_DP="09", VF_DP2="10"), timeout=T, path_timeout=200, family="C18-last",
                          bound="existing versions v09<c>, v10<d>, c, d symbolic digits"))
-        for star in (0, 1, 2):
+        for star in (0, 1, 2, 3):
             for dp in (["01", "99"] if tier == "quick" else ["00", "01", "09", "10", "99"]):
-                if tier == "quick" and (heavy or (star + si + int(dp)) % 2):
+                if tier == "quick" and (heavy or ((star + si + int(dp)) % 2 and not (star == 3 and si == 0))):
                     continue
                 o.append(Obl(f"C18-new[{conf},{pre}v{dp}?{suf},probe={star}]", M, "new_of", env=dict(env0, VF_DP=dp, VF_STAR=str(star)), timeout=T, path_timeout=200, family="C18-new",
-                             bound=f"existing v000 and v{dp}<c> (c symbolic digit); probe {['get_new', 'get_next on *', 'get_next on >'][star]}"))
+                             bound=f"existing v000 and v{dp}<c> (c symbolic digit); probe {['get_new', 'get_next on *', 'get_next on >', 'get_new on a non-existing own version'][star]}"))
         for dp in (["00", "99"] if tier == "quick" else ["00", "09", "10", "99", "98"]):
             if tier == "quick" and conf == "shipped":
                 continue
